@@ -532,6 +532,21 @@ func runC10(ctx *Ctx) *Report {
 		cases = append(cases, massiveCase{Kind: "massive", Op: "dry+json", Doc: hx(doc), Text: "<6 roots, dry-run + json>", Sched: int64(9100 + s), Fmt: fmtDefault, Exts: []string{".go"}})
 		cases = append(cases, massiveCase{Kind: "massive", Op: "dry+json", Doc: hxs("- a\n  - x/y\n- b\n"), Text: "dry-run + json, hostile name", Sched: int64(9200 + s), Fmt: fmtDefault})
 	}
+	// dry run validates the names in both modes
+	for s, d := range []string{"- a\n  - x/y\n- b\n", "- ..\n", "- a\n  - .\n- b\n  - c\n", "- ok\n- a\n  - b\n    - ../../up\n", "# h\n- a/b\n"} {
+		for r := 0; r < 2; r++ {
+			cases = append(cases, massiveCase{Kind: "massive", Op: "dry", Doc: hxs(d), Text: d, Sched: int64(9300 + 10*s + r), Fmt: fmtDefault, Exts: []string{".go"}, Known: "hostile-name", Procs: []int{0, 1}[r]})
+		}
+	}
+	// roots that each look fine but disagree about the indent unit (same indent character): the document's
+	// unit is the first one seen, so the simple mode rejects, and so must the massive mode whichever block
+	// a worker parses first
+	for s, d := range []string{"- a\n  - b\n- c\n    - d\n", "- a\n    - b\n- c\n  - d\n", "- a\n  - b\n  - b2\n- c\n    - d\n        - e\n- f\n  - g\n",
+		"- a\n\t- b\n- c\n\t\t- d\n", "- a\n   - b\n- c\n  - d\n- e\n   - f\n", "- p\n- a\n  - b\n- q\n- c\n      - d\n"} {
+		for r := 0; r < 10 || (ctx.Thorough && r < 40); r++ {
+			cases = append(cases, massiveCase{Kind: "massive", Op: ops[(s+r)%5], Doc: hxs(d), Text: d, Sched: int64(9500 + 100*s + r), Fmt: fmtDefault, Known: "unit-switch-between-roots", Procs: []int{0, 2, 16, 1}[r%4]})
+		}
+	}
 	// a failing reader: error iff error
 	{
 		doc := spell(big[:12], plainSpelling)
